@@ -273,6 +273,26 @@ class ReplyTable:
                 continue
             tbl = self.ok if branch else self.err
             tbl.setdefault(ident if ident is not None else "any", []).append(p)
+        # the per-id dispatch may live in a helper the entry point hands (id, response) to: open it
+        for p in list(self.ok.get("any", [])):
+            ev = next((e for e in p.events if e.target is not None and any(ix.inline(a) == idv for a in e.args)), None)
+            if ev is None:
+                continue
+            opened = ix.expand_on(p, ev)
+            if len(opened) == 1 and opened[0] is p:
+                continue
+            self.ok["any"].remove(p)
+            for q in opened:
+                ident = None
+                for (atom, outcome, _bb, _ln) in q.conds:
+                    if ix.inline(atom) == idv and isinstance(outcome, tuple):
+                        if outcome[0] == "eq":
+                            ident = outcome[1]
+                        elif outcome[0] == "notin":
+                            ident = ident or "other"
+                self.ok.setdefault(ident if ident is not None else "any", []).append(q)
+        if not self.ok.get("any"):
+            self.ok.pop("any", None)
 
     def handler(self, ix, ident):
         """(event, reply fn param values) of the handler call for a successful sub-message with this id"""
@@ -283,6 +303,6 @@ class ReplyTable:
                 deps = sym.param(fn.key, i, fn.param_name(i))
         for p in self.ok.get(str(ident), []):
             for e in p.events:
-                if e.target is not None and deps in e.args:
+                if e.target is not None and deps in e.args and not getattr(e, "opened", False):
                     return e
         return None
